@@ -1,7 +1,9 @@
 package parser
 
 import (
+	"math"
 	"regexp"
+	"strconv"
 	"strings"
 
 	"github.com/robertkrimen/otto/ast"
@@ -271,8 +273,34 @@ func (p *parser) parseObjectPropertyKey() (string, string) {
 	return literal, value
 }
 
+// numericPropertyName is the property name a numeric literal denotes: the string
+// form (9.8.1) of its value, e.g. "16" for 0x10, "1" for 1.0, "100" for 1e2.
+func numericPropertyName(literal string) string {
+	value, err := parseNumberLiteral(literal)
+	if err != nil {
+		return literal
+	}
+	number, ok := value.(float64)
+	if !ok {
+		return strconv.FormatInt(value.(int64), 10)
+	}
+	if math.IsInf(number, 0) {
+		return "Infinity"
+	}
+	if number >= 1e21 || (number != 0 && number < 1e-6) {
+		// 1e+21, 1e-7: no padding zero in the exponent.
+		name := strconv.FormatFloat(number, 'e', -1, 64)
+		if at := strings.IndexByte(name, 'e'); at >= 0 && len(name) > at+2 && name[at+2] == '0' {
+			name = name[:at+2] + name[at+3:]
+		}
+		return name
+	}
+	return strconv.FormatFloat(number, 'f', -1, 64)
+}
+
 func (p *parser) parseObjectProperty() ast.Property {
 	start := p.idx
+	numeric := p.token == token.NUMBER
 	literal, value := p.parseObjectPropertyKey()
 	if literal == "get" && p.token != token.COLON {
 		idx := p.idx
@@ -312,6 +340,10 @@ func (p *parser) parseObjectProperty() ast.Property {
 		p.comments.MarkComments(ast.COLON)
 	}
 	p.expect(token.COLON)
+
+	if numeric && value != "" {
+		value = numericPropertyName(literal)
+	}
 
 	exp := ast.Property{
 		Key:   value,
